@@ -193,3 +193,57 @@ Proof.
   replace (ty =? 98) with false by lia. replace (ty =? 117) with false by lia.
   replace (ty =? 101) with false by lia. split; reflexivity.
 Qed.
+
+(* ---------- enum_set: which enum a format names, independently of the order ---------- *)
+(* find_enum picks the first entry with exactly that name *)
+Lemma find_enum_spec n : forall es e, find_enum n es = Some e ->
+  exists es1 es2, es = es1 ++ (n, e) :: es2 /\ (forall n' e', In (n', e') es1 -> n' <> n).
+Proof.
+  induction es as [|[n0 e0] t IH]; intros e H; [discriminate|]. cbn [find_enum] in H.
+  destruct (str_eqb n n0) eqn:E.
+  - apply str_eqb_eq in E. subst n0. inversion H; subst e0. exists [], t. split; [reflexivity|]. intros ? ? [].
+  - destruct (IH e H) as [es1 [es2 [-> Hn]]]. exists ((n0, e0) :: es1), es2. split; [reflexivity|].
+    intros n' e' [Heq|Hin]; [|eapply Hn; eassumption].
+    inversion Heq; subst. intro Hx. subst n'. rewrite str_eqb_refl in E. discriminate.
+Qed.
+
+(* class names in the enum_set are pairwise distinct *)
+Fixpoint enum_set_distinct (es : list (str * list (str * Z))) : Prop :=
+  match es with
+  | [] => True
+  | (n, _) :: t => find_enum n t = None /\ enum_set_distinct t
+  end.
+
+Lemma find_enum_in : forall es n e, enum_set_distinct es -> In (n, e) es -> find_enum n es = Some e.
+Proof.
+  induction es as [|[n0 e0] t IH]; intros n e Hd Hin; [contradiction|].
+  cbn [find_enum enum_set_distinct] in *. destruct Hd as [Hn0 Hd]. destruct Hin as [Heq|Hin].
+  - inversion Heq; subst. rewrite str_eqb_refl. reflexivity.
+  - specialize (IH n e Hd Hin). destruct (str_eqb n n0) eqn:E; [|exact IH].
+    apply str_eqb_eq in E. subst n0. rewrite IH in Hn0. discriminate.
+Qed.
+
+(* the round trip for the enum format wherever the named enum sits in the enum_set *)
+Lemma formatted_roundtrip_enum_any_order v f w es n e s :
+  format_parse f = Some (101, w) -> enum_name f = Some n ->
+  enum_set_distinct es -> In (n, e) es -> enum_names_distinct e ->
+  val_to_formatted_str v f es = Ok s -> formatted_str_to_val s f es = Ok v.
+Proof.
+  intros Hf Hn Hd Hin He. apply (formatted_roundtrip_enum v f w es e s Hf); [|assumption].
+  unfold enum_of. rewrite Hn. rewrite (find_enum_in es n e Hd Hin). reflexivity.
+Qed.
+
+(* both directions resolve the enum through the same function of (format, enum_set) *)
+Lemma formatted_enum_same_lookup v d f w es :
+  format_parse f = Some (101, w) ->
+  val_to_formatted_str v f es =
+    match enum_of f es with
+    | Err k => Err k
+    | Ok e => match enum_by_value v e with Some n => Ok n | None => Err 92 end
+    end /\
+  formatted_str_to_val d f es =
+    match enum_of f es with
+    | Err k => Err k
+    | Ok e => match enum_by_name d e with Some x => Ok x | None => Err 92 end
+    end.
+Proof. intros Hf. unfold val_to_formatted_str, formatted_str_to_val. rewrite Hf. split; reflexivity. Qed.
